@@ -22,6 +22,9 @@ RULE = (
     "index_rel.wtml, rel 1e-9); (b) the deepest tiles equal an independent cut of the padded canvas; (c) a second run with another input "
     "order / the other parity / another worker count gives identical tiles; (d) no *.lock remains. Non-trivial: >= 2 inputs sharing at "
     "least one tile; distinct by spec."
+    " Also: common grids rotated by exact quarter turns and arbitrary angles; 'stack' cases (5-8 full-frame inputs owning exclusive fin"
+    'e stripes, 3-4 workers, long updates); a third of the parallel runs with statement-boundary delays on a 300x dilated lock clock; t'
+    'he worker receiving one input SIGKILLed.'
 )
 ASSUMPTIONS = ["overlapping inputs agree by construction", "study tiling itself is decided by C08"]
 FIELDS = ["TileLevels", "CenterX", "CenterY", "BaseDegreesPerTile", "Rotation", "OffsetX", "OffsetY", "Projection", "BottomsUp", "WidthFactor", "FileType", "Url"]
